@@ -299,14 +299,14 @@ def name_and_setting_families(tier):
     out = []
     lens = sorted(set(list(range(1, 141)) + [n + d for n in (256, 512, 1024) for d in (-1, 0, 1)]))
     if tier == "quick":
-        lens = [n for n in lens if n <= 140 or n in (255, 256, 257)]
+        lens = [n for n in lens if n <= 100 or n in (127, 128, 129, 255, 256, 257)]
     for c0 in range(0, len(lens), 30):
         names, lines = [], []
         for n in lens[c0:c0 + 30]:
             stem = LONGBASE[:n - 1]
             a, b, c = stem + "a", stem + "b", stem + "c"
             names += [a, b]
-            for nm in (b, a, c, b + "x", b.upper(), (stem[:-1] + "b") if n > 1 else "q"):
+            for nm in ((b, c, b + "x", b.upper()) if tier == "quick" else (b, a, c, b + "x", b.upper(), (stem[:-1] + "b") if n > 1 else "q")):
                 lines += [L("begin " + nm), L("t %d" % n), L("end")]
         out.append(_one(names, "first", lines))
     # renames: every ordered pair of a few names, file 2 carrying the previous / a look-alike / the current name
